@@ -10,13 +10,18 @@
       same value and leaves [u];
     - a first diagnostic [d], fatal or lenient (clause [FDv]): it was issued
       after consuming some [pre], looking at the head of [rem]
-      ([ts = pre ++ rem], [d = diag_at rem _]); and, when [pre <> []], the
-      consumed text [pre] is still viable: there is a completion [w] (all its
-      tokens on the end-of-input line) such that on [pre ++ w ++ u], for every
-      [u] with [C u], the function succeeds without diagnostics and leaves [u].
-      Two diagnostics are issued late and are excepted: [PTooManyParams] (at the
-      256th parameter, not at the comma before it) and anything issued after an
-      assignment to a non-assignable left side ([BadAssign pre]).
+      ([ts = pre ++ rem], [d = diag_at rem _]).  The position is exact ([NC]):
+      [pre] followed by anything that starts like [rem] never parses cleanly.
+      And, when [pre <> []], either
+        + [pre] is still viable ([Viab]): there is a completion [w] (all its
+          tokens on the end-of-input line) such that on [pre ++ w ++ u], for
+          every [u] with [C u], the function succeeds without diagnostics and
+          leaves [u]; or
+        + the diagnostic is late ([Late]): [pre = a' ++ t0 :: b] where [a'] is
+          viable, [a' ++ [t0]] is already hopeless ([NC]), and [t0] is either an
+          [=] after a complete left side that is not assignable (the parser
+          reports it only after reading the right side) or the comma after the
+          255th parameter (reported at the 256th parameter).
 
     A function that fails at its very first token ([pre = []]) promises
     nothing; its caller supplies the completion through a "from nothing"
@@ -25,24 +30,20 @@ From Borno Require Import Base Num Token Ast Parser.
 From Borno Require Import ParserEqs ParserMono Grammar ParserSC_Base ParserPrefixDefs.
 Open Scope nat_scope.
 
-(** * Assignments to a non-assignable left side *)
+(** * Non-assignable left sides *)
 
 Definition is_target (e : expr) : bool :=
   match e with EId _ _ | EIndex _ _ _ | EProp _ _ _ => true | _ => false end.
 
-(** [pre] contains [l =] where the tokens of [l] are a writing of a complete
-    level-0 tree that is not an identifier / index / property access *)
-Definition BadAssign (pre : list token) : Prop :=
-  exists a p eq b l, pre = a ++ p ++ eq :: b /\ tk eq = TEQUAL /\
-    WFk 0 l /\ Yields l (map sym_of p) /\ is_target l = false.
+(** [a'] ends with the tokens of a complete level-0 tree that is not an
+    identifier / index / property access *)
+Definition LhsBad (a' : list token) : Prop :=
+  exists a p l, a' = a ++ p /\ WFk 0 l /\ Yields l (map sym_of p) /\ is_target l = false.
 
-Lemma BadAssign_app x pre : BadAssign pre -> BadAssign (x ++ pre).
+Lemma LhsBad_app x a' : LhsBad a' -> LhsBad (x ++ a').
 Proof.
-  intros (a & p & eq & b & l & -> & K & W & Y & T).
-  exists (x ++ a), p, eq, b, l. rewrite <- app_assoc. auto.
+  intros (a & p & l & -> & W & Y & T). exists (x ++ a), p, l. rewrite <- app_assoc. auto.
 Qed.
-Lemma BadAssign_cons t pre : BadAssign pre -> BadAssign (t :: pre).
-Proof. apply (BadAssign_app [t]). Qed.
 
 Lemma is_target_erase e : is_target (erase_e e) = is_target e.
 Proof. destruct e; reflexivity. Qed.
@@ -175,17 +176,25 @@ Lemma notclean_bind_r {A B} (a : A) rest (k : A -> list token -> pres B) :
   notclean (k a rest) -> notclean (pbind (POk a rest []) k).
 Proof. rewrite pb_ret0. auto. Qed.
 
-(** the diagnostic position is exact: [pre] followed by anything that starts like
-    [rem] never parses cleanly *)
+(** the position is exact: [pre] followed by anything that starts like [rem]
+    never parses cleanly *)
 Definition NC {A} (run : nat -> list token -> pres A) (f : nat) (pre rem : list token) : Prop :=
   forall g rem', f <= g -> samehead rem rem' -> notclean (run g (pre ++ rem')).
+
+(** [pre0] is viable *)
+Definition Viab {A} (C : list token -> Prop) (run : nat -> list token -> pres A) (pre0 : list token) : Prop :=
+  exists w, online w /\ forall u, C u -> EvOk run (pre0 ++ w ++ u) u.
+
+(** the two late diagnostics *)
+Definition LateK (t0 : token) (a' : list token) : Prop :=
+  (tk t0 = TEQUAL /\ LhsBad a') \/ (lt = true /\ tk t0 = TCOMMA).
+Definition Late {A} (C : list token -> Prop) (run : nat -> list token -> pres A) (f : nat) (pre : list token) : Prop :=
+  exists a' t0 b, pre = a' ++ t0 :: b /\ LateK t0 a' /\ NC run f a' [t0] /\ (a' <> [] -> Viab C run a').
 
 Definition FDv {A} (C : list token -> Prop) (run : nat -> list token -> pres A)
     (f : nat) (ts : list token) (d : pdiag) : Prop :=
   exists pre rem, ts = pre ++ rem /\ d = diag_at rem (pd_kind d) /\ NC run f pre rem /\
-    (pre <> [] ->
-       (lt = true /\ pd_kind d = PTooManyParams) \/ BadAssign pre \/
-       exists w, online w /\ forall u, C u -> EvOk run (pre ++ w ++ u) u).
+    (pre <> [] -> Late C run f pre \/ Viab C run pre).
 
 Definition Via {A} (ne : bool) (C : list token -> Prop) (run : nat -> list token -> pres A)
     (f : nat) (ts : list token) : Prop :=
@@ -203,12 +212,103 @@ Definition FN {A} (C : list token -> Prop) (run : nat -> list token -> pres A) (
 Definition FNw {A B} (C' C : list token -> Prop) (Y : nat -> A -> list token -> pres B) (w0 : list token) : Prop :=
   online w0 /\ forall u, C u -> C' (w0 ++ u) /\ forall a, EvOk (fun g => Y g a) (w0 ++ u) u.
 
+Lemma LateK_app x t0 a' : LateK t0 a' -> LateK t0 (x ++ a').
+Proof. intros [(K & L)|H]; [left; split; [exact K|apply LhsBad_app, L]|right; exact H]. Qed.
+
 Section Clauses.
 Context {A : Type}.
 Implicit Types run : nat -> list token -> pres A.
 
 Lemma EvOk_ext run run' x u : (forall g, run g x = run' g x) -> EvOk run' x u -> EvOk run x u.
 Proof. intros E (g0 & a & H). exists g0, a. intros g Hg. rewrite E. auto. Qed.
+
+(** ** Transport of the three ingredients
+
+    [P] is the set of inputs on which the two runs are known to agree (with fuel
+    [>= f]): everything, or the lists with the same head as the input. *)
+
+Lemma NC_ext (P : list token -> Prop) run run' f pre rem :
+  (forall g y, f <= g -> P y -> run g y = run' g y) -> (forall rem', samehead rem rem' -> P (pre ++ rem')) ->
+  NC run' f pre rem -> NC run f pre rem.
+Proof. intros E HP N g rem' Hg S. rewrite E; [apply N; auto|exact Hg|apply HP, S]. Qed.
+
+Lemma Viab_ext (P : list token -> Prop) C run run' f pre0 :
+  (forall g y, f <= g -> P y -> run g y = run' g y) -> (forall x, P (pre0 ++ x)) ->
+  Viab C run' pre0 -> Viab C run pre0.
+Proof.
+  intros E HP (w & O & Hc). exists w. split; [exact O|]. intros u Cu.
+  destruct (Hc u Cu) as (g0 & a & R). exists (max g0 f), a. intros g Hg.
+  rewrite E; [apply R; lia|lia|apply HP].
+Qed.
+
+Lemma Late_ext (P : list token -> Prop) C run run' f pre :
+  (forall g y, f <= g -> P y -> run g y = run' g y) ->
+  (forall x y, x <> [] -> (exists b, pre = x ++ b) -> P (x ++ y)) ->
+  Late C run' f pre -> Late C run f pre.
+Proof.
+  intros E HP (a' & t0 & b & Ep & K & N & V). exists a', t0, b.
+  split; [exact Ep|]. split; [exact K|]. split.
+  - eapply NC_ext; [exact E| |exact N]. intros rem' S. same_head S.
+    replace (a' ++ t0 :: r2) with ((a' ++ [t0]) ++ r2) by (rewrite <- app_assoc; reflexivity).
+    apply HP; [destruct a'; discriminate|]. exists b. rewrite Ep, <- app_assoc. reflexivity.
+  - intros Hne. eapply Viab_ext; [exact E| |exact (V Hne)]. intros x. apply HP; [exact Hne|].
+    exists (t0 :: b). exact Ep.
+Qed.
+
+Lemma FDv_ext (P : list token -> Prop) C run run' f ts d :
+  (forall g y, f <= g -> P y -> run g y = run' g y) ->
+  (forall y, samehead ts y -> P y) ->
+  FDv C run' f ts d -> FDv C run f ts d.
+Proof.
+  intros E HP (pre & rem & Ets & Ed & N & H). exists pre, rem. split; [exact Ets|]. split; [exact Ed|].
+  split.
+  { eapply NC_ext; [exact E| |exact N]. intros rem' S. apply HP. subst ts. apply samehead_app, S. }
+  intros Hne. destruct (H Hne) as [L|V]; [left|right].
+  - eapply Late_ext; [exact E| |exact L]. intros a' x Hna (b & Ep). apply HP. subst ts pre.
+    rewrite <- app_assoc. apply samehead_app_ne, Hna.
+  - eapply Viab_ext; [exact E| |exact V]. intros x. apply HP. subst ts. apply samehead_app_ne, Hne.
+Qed.
+
+Lemma NC_cons run run' f t pre rem :
+  (forall g x, run g (t :: x) = run' g x) -> NC run' f pre rem -> NC run f (t :: pre) rem.
+Proof. intros E N g rem' Hg S. rewrite <- app_comm_cons, E. apply N; auto. Qed.
+Lemma Viab_cons C run run' t pre0 :
+  (forall g x, run g (t :: x) = run' g x) -> Viab C run' pre0 -> Viab C run (t :: pre0).
+Proof.
+  intros E (w & O & Hc). exists w. split; [exact O|]. intros u Cu. destruct (Hc u Cu) as (g0 & a & R).
+  exists g0, a. intros g Hg. rewrite <- app_comm_cons, E. apply R, Hg.
+Qed.
+Lemma Late_cons C run run' f t pre :
+  (forall g x, run g (t :: x) = run' g x) -> Viab C run [t] -> Late C run' f pre -> Late C run f (t :: pre).
+Proof.
+  intros E V0 (a' & t0 & b & -> & K & N & V). exists (t :: a'), t0, b.
+  split; [reflexivity|]. split; [apply (LateK_app [t]), K|].
+  split; [eapply NC_cons; eauto|]. intros _. destruct a' as [|t1 a1]; [exact V0|].
+  eapply Viab_cons; [exact E|]. apply V. discriminate.
+Qed.
+
+Lemma NC_shift run f pre rem : NC (fun g => run (S g)) f pre rem -> NC run (S f) pre rem.
+Proof. intros N g rem' Hg S0. destruct g as [|g']; [lia|]. apply N; [lia|exact S0]. Qed.
+Lemma Viab_shift C run pre0 : Viab C (fun g => run (S g)) pre0 -> Viab C run pre0.
+Proof.
+  intros (w & O & Hc). exists w. split; [exact O|]. intros u Cu. destruct (Hc u Cu) as (g0 & a & R).
+  exists (S g0), a. intros g Hg. destruct g as [|g']; [lia|]. apply R. lia.
+Qed.
+Lemma Late_shift C run f pre : Late C (fun g => run (S g)) f pre -> Late C run (S f) pre.
+Proof.
+  intros (a' & t0 & b & Ep & K & N & V). exists a', t0, b.
+  split; [exact Ep|]. split; [exact K|]. split; [apply NC_shift, N|intros Hne; apply Viab_shift, V, Hne].
+Qed.
+
+Lemma Viab_sub (C C2 : list token -> Prop) run pre0 : (forall u, C2 u -> C u) -> Viab C run pre0 -> Viab C2 run pre0.
+Proof. intros S (w & O & Hc). exists w. split; auto. Qed.
+Lemma Late_sub (C C2 : list token -> Prop) run f pre : (forall u, C2 u -> C u) -> Late C run f pre -> Late C2 run f pre.
+Proof.
+  intros S (a' & t0 & b & Ep & K & N & V). exists a', t0, b.
+  split; [exact Ep|]. split; [exact K|]. split; [exact N|intros Hne; eapply Viab_sub; eauto].
+Qed.
+
+(** ** The combinators *)
 
 Lemma Via_fuel ne C run f ts : run f ts = PFuel -> Via ne C run f ts.
 Proof. intros E. unfold Via. rewrite E. exact I. Qed.
@@ -223,8 +323,7 @@ Qed.
 Lemma FDv_sub (C C2 : list token -> Prop) run f ts d : (forall u, C2 u -> C u) -> FDv C run f ts d -> FDv C2 run f ts d.
 Proof.
   intros S (pre & rem & E & Ed & N & H). exists pre, rem. split; [auto|]. split; [auto|]. split; [exact N|].
-  intros Hne. destruct (H Hne) as [L|[B|(w & O & Hc)]]; auto.
-  right; right. exists w. split; auto.
+  intros Hne. destruct (H Hne) as [L|V]; [left; eapply Late_sub; eauto|right; eapply Viab_sub; eauto].
 Qed.
 Lemma Via_sub ne (C C2 : list token -> Prop) run f ts : (forall u, C2 u -> C u) -> Via ne C run f ts -> Via ne C2 run f ts.
 Proof.
@@ -233,17 +332,12 @@ Proof.
   intros g u Hg [H|H]; apply R; auto.
 Qed.
 
-(** ** Extensional replacement *)
-
 Lemma Via_ext_all ne C run run' f ts :
   (forall g y, run g y = run' g y) -> Via ne C run' f ts -> Via ne C run f ts.
 Proof.
   intros E. unfold Via. rewrite E.
   assert (FD : forall d, FDv C run' f ts d -> FDv C run f ts d).
-  { intros d (pre & rem & Ets & Ed & N & H). exists pre, rem. split; [auto|]. split; [auto|].
-    split; [intros g rem' Hg S; rewrite E; apply N; auto|].
-    intros Hne. destruct (H Hne) as [L|[B|(w & O & Hc)]]; auto.
-    right; right. exists w. split; auto. intros u Cu. eapply EvOk_ext; [|apply Hc; auto]. intros; apply E. }
+  { intros d. apply (FDv_ext (fun _ => True)); auto. }
   destruct (run' f ts) as [a r0 [|d ds]| [|d ds]|]; auto.
   intros (p & Ets & Hne & R). exists p. split; [auto|]. split; [auto|]. intros. rewrite E. auto.
 Qed.
@@ -255,13 +349,7 @@ Lemma Via_ext_head C run run' f ts :
 Proof.
   intros E. unfold Via. rewrite (E f ts (le_n _) (samehead_refl _)).
   assert (FD : forall d, FDv C run' f ts d -> FDv C run f ts d).
-  { intros d (pre & rem & Ets & Ed & N & H). exists pre, rem. split; [auto|]. split; [auto|].
-    split.
-    { intros g rem' Hg S. rewrite E; [apply N; auto|exact Hg|]. subst ts. apply samehead_app, S. }
-    intros Hne. destruct (H Hne) as [L|[B|(w & O & Hc)]]; auto.
-    right; right. exists w. split; auto. intros u Cu.
-    destruct (Hc u Cu) as (g0 & a & R). exists (max g0 f), a. intros g Hg.
-    rewrite E; [apply R; lia|lia|]. subst ts. apply samehead_app_ne. exact Hne. }
+  { intros d. apply (FDv_ext (fun y => samehead ts y)); auto. }
   destruct (run' f ts) as [a r0 [|d ds]| [|d ds]|]; auto.
   intros (p & Ets & Hne & R). exists p. split; [auto|]. split; [auto|]. intros g u Hg Hu.
   rewrite E; auto. subst ts. apply samehead_app_ne. auto.
@@ -275,14 +363,12 @@ Proof.
   intros E (O0 & H0). unfold Via. rewrite E.
   assert (FD : forall d, FDv C run' f r d -> FDv C run f (t :: r) d).
   { intros d (pre & rem & Ets & Ed & N & H). exists (t :: pre), rem. split; [subst r; reflexivity|]. split; [auto|].
-    split; [intros g rem' Hg S; rewrite <- app_comm_cons, E; apply N; auto|].
-    intros _. destruct pre as [|t' pre'].
-    - right; right. exists w0. split; auto. intros u Cu. destruct (H0 u Cu) as (g0 & a & R).
-      exists g0, a. intros g Hg. cbn [app]. rewrite E. apply R; auto.
-    - destruct (H ltac:(discriminate)) as [L|[B|(w & O & Hc)]]; auto.
-      + right; left. apply BadAssign_cons, B.
-      + right; right. exists w. split; auto. intros u Cu. destruct (Hc u Cu) as (g0 & a & R).
-        exists g0, a. intros g Hg. rewrite <- app_comm_cons. rewrite E. apply R; auto. }
+    split; [eapply NC_cons; eauto|].
+    assert (V0 : Viab C run [t]).
+    { exists w0. split; auto. intros u Cu. destruct (H0 u Cu) as (g0 & a & R).
+      exists g0, a. intros g Hg. cbn [app]. rewrite E. apply R; auto. }
+    intros _. destruct pre as [|t' pre']; [right; exact V0|].
+    destruct (H ltac:(discriminate)) as [L|V]; [left; eapply Late_cons; eauto|right; eapply Viab_cons; eauto]. }
   destruct (run' f r) as [a r0 [|d ds]| [|d ds]|]; auto.
   intros (p & Ets & _ & R). exists (t :: p). split; [subst r; reflexivity|]. split; [discriminate|].
   intros g u Hg Hu. rewrite <- app_comm_cons. rewrite E. auto.
@@ -324,10 +410,8 @@ Proof.
   unfold Via.
   assert (FD : forall d, FDv C (fun g => run (S g)) f ts d -> FDv C run (S f) ts d).
   { intros d (pre & rem & Ets & Ed & N & H). exists pre, rem. split; [auto|]. split; [auto|].
-    split; [intros g rem' Hg S0; destruct g as [|g']; [lia|]; apply N; [lia|exact S0]|].
-    intros Hne. destruct (H Hne) as [L|[B|(w & O & Hc)]]; auto.
-    right; right. exists w. split; auto. intros u Cu. destruct (Hc u Cu) as (g0 & a & R).
-    exists (S g0), a. intros g Hg. destruct g as [|g']; [lia|]. apply R. lia. }
+    split; [apply NC_shift, N|].
+    intros Hne. destruct (H Hne) as [L|V]; [left; apply Late_shift, L|right; apply Viab_shift, V]. }
   destruct (run (S f) ts) as [a r0 [|d ds]| [|d ds]|]; auto.
   intros (p & Ets & Hne & R). exists p. split; [auto|]. split; [auto|].
   intros g u Hg Hu. destruct g as [|g']; [lia|]. apply R; auto. lia.
@@ -400,7 +484,63 @@ Proof.
 Qed.
 
 Lemma pb_ret {A B} (a : A) r (k : A -> list token -> pres B) : pbind (POk a r []) k = k a r.
-Proof. simpl. destruct (k a r); reflexivity. Qed.
+Proof. apply pb_ret0. Qed.
+
+(** transport through a sequence: the first parser has the diagnostic ... *)
+Lemma NC_bind_l {A B} (X : nat -> list token -> pres A) (Y : nat -> A -> list token -> pres B) f pre rem :
+  NC X f pre rem -> NC (fun g x => pbind (X g x) (Y g)) f pre rem.
+Proof. intros N g rem' Hg S. apply notclean_bind_l, N; auto. Qed.
+Lemma Viab_bind_l {A B} (C' C : list token -> Prop) (X : nat -> list token -> pres A) (Y : nat -> A -> list token -> pres B) pre0 w0 :
+  FNw C' C Y w0 -> Viab C' X pre0 -> Viab C (fun g x => pbind (X g x) (Y g)) pre0.
+Proof.
+  intros (O0 & H0) (w & O & Hc). exists (w ++ w0). split; [apply online_app; auto|].
+  intros u Cu. destruct (H0 u Cu) as (C'u & HY).
+  destruct (Hc _ C'u) as (g1 & a & R1). destruct (HY a) as (g2 & b & R2).
+  exists (max g1 g2), b. intros g Hg. rewrite <- app_assoc.
+  rewrite R1 by lia. simpl. rewrite R2 by lia. reflexivity.
+Qed.
+Lemma Late_bind_l {A B} (C' C : list token -> Prop) (X : nat -> list token -> pres A) (Y : nat -> A -> list token -> pres B) f pre w0 :
+  FNw C' C Y w0 -> Late C' X f pre -> Late C (fun g x => pbind (X g x) (Y g)) f pre.
+Proof.
+  intros FY (a' & t0 & b & Ep & K & N & V). exists a', t0, b.
+  split; [exact Ep|]. split; [exact K|].
+  split; [apply NC_bind_l, N|intros Hne; eapply Viab_bind_l; eauto].
+Qed.
+
+(** ... or the first parser succeeded cleanly (on [p1], replaceably) and the second has it *)
+Section BindR.
+Context {A B : Type}.
+Variables (C' C : list token -> Prop) (X : nat -> list token -> pres A) (Y : nat -> A -> list token -> pres B).
+Variables (f : nat) (p1 r1 : list token) (a : A).
+Hypothesis R1 : forall g u, f <= g -> samehead r1 u \/ C' u -> X g (p1 ++ u) = POk a u [].
+
+Lemma NC_bind_r pre2 rem x : r1 = pre2 ++ x -> (pre2 = [] -> forall rem', samehead rem rem' -> samehead x rem') ->
+  NC (fun g => Y g a) f pre2 rem -> NC (fun g x => pbind (X g x) (Y g)) f (p1 ++ pre2) rem.
+Proof.
+  intros Er Hx N g rem' Hg S. rewrite <- app_assoc.
+  rewrite R1; [apply notclean_bind_r, N; auto|exact Hg|]. left. subst r1.
+  destruct pre2 as [|t2 pre2']; [apply (Hx eq_refl), S|reflexivity].
+Qed.
+Lemma Viab_bind_r pre2 x : r1 = pre2 ++ x -> pre2 <> [] ->
+  Viab C (fun g => Y g a) pre2 -> Viab C (fun g x => pbind (X g x) (Y g)) (p1 ++ pre2).
+Proof.
+  intros Er Hne (w & O & Hc). exists w. split; [exact O|]. intros u Cu. destruct (Hc u Cu) as (g2 & b & R2).
+  exists (max f g2), b. intros g Hg. rewrite <- app_assoc.
+  rewrite R1; [|lia|left; subst r1; apply samehead_app_ne, Hne]. simpl. rewrite R2 by lia. reflexivity.
+Qed.
+Lemma Late_bind_r pre2 x : r1 = pre2 ++ x -> (p1 <> [] -> Viab C (fun g x => pbind (X g x) (Y g)) p1) ->
+  Late C (fun g => Y g a) f pre2 -> Late C (fun g x => pbind (X g x) (Y g)) f (p1 ++ pre2).
+Proof.
+  intros Er V1 (a' & t0 & b & -> & K & N & V). exists (p1 ++ a'), t0, b.
+  split; [rewrite <- app_assoc; reflexivity|].
+  split; [apply LateK_app, K|].
+  rewrite <- app_assoc in Er. split.
+  - eapply NC_bind_r; [exact Er| |exact N]. intros _ rem' S. same_head S. reflexivity.
+  - intros Hne. destruct a' as [|t1 a1].
+    + rewrite app_nil_r in *. apply V1, Hne.
+    + eapply Viab_bind_r; [exact Er|discriminate|apply V; discriminate].
+Qed.
+End BindR.
 
 Lemma Via_bind {A B} neX neY (C' C : list token -> Prop) (X : nat -> list token -> pres A) (Y : nat -> A -> list token -> pres B) f ts w0 :
   Via neX C' X f ts ->
@@ -409,17 +549,12 @@ Lemma Via_bind {A B} neX neY (C' C : list token -> Prop) (X : nat -> list token 
   FNw C' C Y w0 ->
   Via (neX || neY) C (fun g x => pbind (X g x) (Y g)) f ts.
 Proof.
-  intros VX VY Sub (O0 & H0).
+  intros VX VY Sub FY.
   (* a first diagnostic of [X] is the first diagnostic of the sequence *)
   assert (FDl : forall d, FDv C' X f ts d -> FDv C (fun g x => pbind (X g x) (Y g)) f ts d).
   { intros d (pre & rem & Ets & Ed & N & H). exists pre, rem. split; [auto|]. split; [auto|].
-    split; [intros g rem' Hg S; apply notclean_bind_l, N; auto|].
-    intros Hne. destruct (H Hne) as [L|[Bd|(w & O & Hc)]]; auto.
-    right; right. exists (w ++ w0). split; [apply online_app; auto|].
-    intros u Cu. destruct (H0 u Cu) as (C'u & HY).
-    destruct (Hc _ C'u) as (g1 & a & R1). destruct (HY a) as (g2 & b & R2).
-    exists (max g1 g2), b. intros g Hg. rewrite <- app_assoc.
-    rewrite R1 by lia. simpl. rewrite R2 by lia. reflexivity. }
+    split; [apply NC_bind_l, N|].
+    intros Hne. destruct (H Hne) as [L|V]; [left; eapply Late_bind_l; eauto|right; eapply Viab_bind_l; eauto]. }
   unfold Via in VX |- *. destruct (X f ts) as [a r1 [|d1 ds1]| [|d1 ds1]|] eqn:EX; simpl; auto.
   - (* X clean *)
     destruct VX as (p1 & Ets & Hne1 & R1).
@@ -427,20 +562,18 @@ Proof.
     assert (FDr : forall d, FDv C (fun g => Y g a) f r1 d -> FDv C (fun g x => pbind (X g x) (Y g)) f ts d).
     { intros d (pre2 & rem & Er1 & Ed & N & H). exists (p1 ++ pre2), rem.
       split; [subst ts r1; rewrite app_assoc; reflexivity|]. split; [auto|].
-      split.
-      { intros g rem' Hg S. rewrite <- app_assoc.
-        rewrite R1; [apply notclean_bind_r, N; auto|exact Hg|]. left. subst r1. apply samehead_app, S. }
-      intros Hne. destruct pre2 as [|t2 pre2'].
-      - (* [Y] fails at once: complete it from nothing *)
-        rewrite app_nil_r in *. right; right. exists w0. split; auto.
+      split; [eapply (NC_bind_r C' X Y f p1 r1 a R1); [exact Er1|intros _ rem' S; exact S|exact N]|].
+      (* complete [Y] from nothing after [p1] *)
+      assert (V1 : Viab C (fun g x => pbind (X g x) (Y g)) p1).
+      { destruct FY as (O0 & H0). exists w0. split; auto.
         intros u Cu. destruct (H0 u Cu) as (C'u & HY). destruct (HY a) as (g2 & b & R2).
         exists (max f g2), b. intros g Hg.
-        rewrite R1; [|lia|right; exact C'u]. simpl. rewrite R2 by lia. reflexivity.
-      - destruct (H ltac:(discriminate)) as [L|[Bd|(w & O & Hc)]]; auto.
-        + right; left. apply BadAssign_app, Bd.
-        + right; right. exists w. split; auto. intros u Cu. destruct (Hc u Cu) as (g2 & b & R2).
-          exists (max f g2), b. intros g Hg. rewrite <- app_assoc.
-          rewrite R1; [|lia|left; subst r1; reflexivity]. simpl. rewrite R2 by lia. reflexivity. }
+        rewrite R1; [|lia|right; exact C'u]. simpl. rewrite R2 by lia. reflexivity. }
+      intros Hne. destruct pre2 as [|t2 pre2'].
+      - rewrite app_nil_r in *. right. exact V1.
+      - destruct (H ltac:(discriminate)) as [L|V]; [left|right].
+        + eapply (Late_bind_r C' C X Y f p1 r1 a R1); [exact Er1|intros _; exact V1|exact L].
+        + eapply (Viab_bind_r C' C X Y f p1 r1 a R1); [exact Er1|discriminate|exact V]. }
     destruct (Y f a r1) as [b r [|d2 ds2]| [|d2 ds2]|] eqn:EY; simpl; auto.
     destruct VY as (p2 & Er1 & Hne2 & R2). exists (p1 ++ p2).
     split; [subst ts r1; rewrite app_assoc; reflexivity|]. split.
@@ -480,6 +613,18 @@ Proof.
       * apply FN_ret.
       * apply Via_ret. reflexivity.
     + apply (Via_len_now _ _ _ _ _ a pk). intros g y S. same_head S. unfold Parser.consume_lenient. rewrite E. reflexivity.
+Qed.
+
+(** the comma that admits no further parameter: whatever follows it is rejected *)
+Lemma Via_late_now {A} ne (C : list token -> Prop) (run : nat -> list token -> pres A) f t0 r :
+  lt = true -> tk t0 = TCOMMA ->
+  (forall g y, f <= g -> run g (t0 :: y) = PErr [diag_at y PTooManyParams]) -> Via ne C run f (t0 :: r).
+Proof.
+  intros Hl K E. unfold Via. rewrite (E f r (le_n _)). exists [t0], r. split; [reflexivity|].
+  split; [rewrite pd_kind_diag_at; reflexivity|]. split.
+  - intros g rem' Hg _. cbn [app]. rewrite (E g rem' Hg). exact I.
+  - intros _. left. exists [], t0, []. split; [reflexivity|]. split; [right; auto|]. split; [|congruence].
+    intros g rem' Hg S. same_head S. cbn [app]. rewrite (E g r2 Hg). exact I.
 Qed.
 
 (** a parser followed by a pure function of its value *)
@@ -531,18 +676,7 @@ Proof.
 Qed.
 
 
-(** ** Late diagnostics and a few more "from nothing" facts *)
-
-Lemma Via_cons_late {A} (C : list token -> Prop) (run run' : nat -> list token -> pres A) f t r :
-  lt = true -> (forall g x, run g (t :: x) = run' g x) ->
-  (forall g y, f <= g -> samehead r y -> run' g y = PErr [diag_at y PTooManyParams]) ->
-  Via true C run f (t :: r).
-Proof.
-  intros Hl E Er. unfold Via. rewrite E, (Er f r (le_n _) (samehead_refl _)).
-  exists [t], r. split; [reflexivity|]. split; [rewrite pd_kind_diag_at; reflexivity|]. split.
-  - intros g rem' Hg S. cbn [app]. rewrite E, (Er g rem' Hg S). exact I.
-  - intros _. left. split; [exact Hl|apply pd_kind_diag_at].
-Qed.
+(** ** A few more "from nothing" facts *)
 
 Lemma FNw_of_FN {A B} (C' C : list token -> Prop) (Y : nat -> A -> list token -> pres B) w0 :
   online w0 -> (forall a, FN C (fun g => Y g a) w0) -> (forall u, C u -> C' (w0 ++ u)) -> FNw C' C Y w0.
@@ -622,10 +756,15 @@ Lemma FDv_late {A} eofl (C : list token -> Prop) (run : nat -> list token -> pre
   FDv eofl false C run f ts d -> FDv eofl true C run f ts d.
 Proof.
   intros (pre & rem & E & Ed & N & H). exists pre, rem. split; [auto|]. split; [auto|]. split; [exact N|].
-  intros Hne. destruct (H Hne) as [(L & _)|[B|W]]; [discriminate L|auto|auto].
+  intros Hne. destruct (H Hne) as [(a' & t0 & b & Ep & K & Na & V)|V]; [left|right; exact V].
+  exists a', t0, b. split; [exact Ep|]. split; [|split; [exact Na|exact V]].
+  destruct K as [K|(L & _)]; [left; exact K|discriminate L].
 Qed.
 Lemma Via_late {A} eofl ne (C : list token -> Prop) (run : nat -> list token -> pres A) f ts :
   Via eofl false ne C run f ts -> Via eofl true ne C run f ts.
 Proof.
   unfold Via. destruct (run f ts) as [a r0 [|d ds]| [|d ds]|]; auto using FDv_late.
 Qed.
+
+Print Assumptions Via_bind.
+Print Assumptions via_then_close.
